@@ -1,4 +1,5 @@
 From Coq Require Import Extraction ExtrOcamlBasic.
-From Trion Require Import Asm.CtxModel Asm.LayoutSpec.
+From Trion Require Import Asm.CtxModel Asm.LayoutSpec Asm.LayoutSpecExt.
 Extraction Language OCaml.
-Separate Extraction BinInt.Z.add BinNat.N.add BinNat.N.mul pipeline_gen include_fuel parse_source layout_spec.
+Separate Extraction BinInt.Z.add BinNat.N.add BinNat.N.mul pipeline_gen include_fuel parse_source layout_spec
+  layout_spec_ext item_idents.
